@@ -116,3 +116,36 @@ def answered(p, call_text: str, excs: set[str]):
     if excs and any(call_text in u(x) for x in list(p.effects) + [t for t, _ in p.tests] + ([p.value] if p.value is not None else [])):
         return True
     return None
+
+
+def final_list_value(p, target: str):
+    """the list a path leaves in `target` (text of a Name / attribute chain): the last plain assignment to it on the path, followed by
+    the append / extend / += effects after it, written as one display.  None when the target is not assigned on the path or is
+    changed in another way."""
+    import copy
+    val = None
+    for e in p.effects:
+        if isinstance(e, ast.Assign) and any(u(t) == target for t in e.targets):
+            val = copy.deepcopy(e.value)
+            continue
+        if val is None:
+            continue
+        if isinstance(e, ast.AugAssign) and u(e.target) == target and isinstance(e.op, ast.Add):
+            val = ast.List(elts=[ast.Starred(value=val, ctx=ast.Load()), ast.Starred(value=copy.deepcopy(e.value), ctx=ast.Load())], ctx=ast.Load())
+            continue
+        c = e.value if isinstance(e, ast.Expr) else None
+        if isinstance(c, ast.Call) and isinstance(c.func, ast.Attribute) and u(c.func.value) == target:
+            if c.func.attr == "append" and len(c.args) == 1:
+                val = ast.List(elts=[ast.Starred(value=val, ctx=ast.Load()), copy.deepcopy(c.args[0])], ctx=ast.Load())
+            elif c.func.attr == "extend" and len(c.args) == 1:
+                val = ast.List(elts=[ast.Starred(value=val, ctx=ast.Load()), ast.Starred(value=copy.deepcopy(c.args[0]), ctx=ast.Load())], ctx=ast.Load())
+            else:
+                return None
+        elif any(isinstance(n, (ast.Subscript, ast.Attribute)) and isinstance(n.ctx, (ast.Store, ast.Del)) and u(n.value) == target for n in ast.walk(e)):
+            return None
+    if val is None:
+        return None
+    from .canon import expr_norm
+    st = ast.fix_missing_locations(ast.Expr(value=val))
+    ast.copy_location(st, p.effects[0]) if p.effects else None
+    return expr_norm([ast.fix_missing_locations(ast.Module(body=[st], type_ignores=[]).body[0])])[0].value
